@@ -1,7 +1,8 @@
 import ArgoVerif.Proofs.WaitListAll
+import ArgoVerif.Proofs.WLPtr
 /-
 Props.C19 — timed waits respect their deadline and never damage the waiter queue
-(wait-list protocol part; the pointer-level list with stale `p_prev` links is in Props.C19Ptr).
+(wait-list protocol; the pointer-level list with stale `p_prev` links: section "pointer-level wait-list" below).
 
 Every theorem is about all traces of Model.WaitList: any number of ULT / non-ULT, timed / untimed
 waiters and wakers, every interleaving of their atomic steps, every outcome of each `now >= deadline`
@@ -9,6 +10,7 @@ comparison.  The same theorems serve C05 (cond), C08, C09 through the shared wai
 -/
 namespace ArgoVerif.Props.C19
 open ArgoVerif ArgoVerif.Model.WaitList
+open ArgoVerif.Heap ArgoVerif.Model
 
 /-- the spinlock is exclusive: wait-list operations of different actors never overlap -/
 theorem wl_lock_excl (u : Actor → Bool) (s : St) (h : (machine u).Reachable s) (a b : Actor)
@@ -122,5 +124,100 @@ example :
        .begin 4, .tasL 4 false, .deq 4 3, .storeReady 4 3, .clearL 4,
        .loadState 1 true]).map (fun s => (s.q, s.timedOut 2, s.timedOut 1, s.pc 1, s.pc 2, s.pc 3))
       = some ([], true, false, .idle, .idle, .idle) := by decide
+
+/-! ## pointer-level wait-list (Model.WLPtr): the removal code and its stale `p_prev` links -/
+
+/-- **G5 — the pointer-level wait-list refines a FIFO with removal.**  After EVERY sequence of enqueues (timed and
+untimed), signals, broadcasts and timed-out removals starting from the empty list — the statements of
+`abti_waitlist.h` executed on a heap in which untimed nodes carry garbage `p_prev` and popped predecessors leave
+stale ones — the structure represents an abstract list `xs`, and every further operation whose C precondition
+holds is executed by the same pointer code (`ptrStep`) and acts on `xs` as append / drop-head / clear / erase,
+again yielding a represented list: removal of the head, of a middle node and of the tail, with timed and untimed
+neighbours, are all covered (they are the cases of the proof of `rep_removeTimed`). -/
+theorem wl_refines_fifo_with_removal (ops : List WLPtr.Op) (m : WLPtr.M)
+    (h : WLPtr.machine.run WLPtr.machine.init ops = some m) :
+    WLPtr.WlRep m.s m.xs ∧
+    ∀ op, WLPtr.wlPre m op → ∃ m', WLPtr.step m op = some m' ∧ m'.s = WLPtr.ptrStep m.xs.length m.s op ∧
+      m'.xs = WLPtr.wlAbs m.xs op ∧ WLPtr.WlRep m'.s m'.xs := by
+  have hr : WLPtr.Rep m.s m.xs := WLPtr.rep_reachable m ⟨ops, h⟩
+  refine ⟨(WLPtr.wlRep_iff _ _).mpr hr, ?_⟩
+  intro op hp
+  have hex : ∃ m', WLPtr.step m op = some m' ∧ m'.s = WLPtr.ptrStep m.xs.length m.s op ∧ m'.xs = WLPtr.wlAbs m.xs op := by
+    cases op <;> simp only [WLPtr.wlPre] at hp <;> simp [WLPtr.step, WLPtr.specStep, WLPtr.wlAbs, hp]
+  obtain ⟨m', hs, h1, h2⟩ := hex
+  exact ⟨m', hs, h1, h2, (WLPtr.wlRep_iff _ _).mpr (WLPtr.step_rep hr hs)⟩
+
+/-- operations whose precondition fails are not behaviours of the model (the driver rejects such a trace) -/
+theorem wl_step_iff_pre (m : WLPtr.M) (op : WLPtr.Op) : (WLPtr.step m op).isSome ↔ WLPtr.wlPre m op := by
+  cases op <;> simp [WLPtr.step, WLPtr.specStep, WLPtr.wlPre] <;> split <;> simp_all
+
+/-- the broadcast loop `do { … } while (p)` reaches NULL after exactly `|xs|` iterations and has cleared the
+`p_next` of the queued nodes and nothing else -/
+theorem wl_broadcast_terminates (ops : List WLPtr.Op) (m : WLPtr.M)
+    (h : WLPtr.machine.run WLPtr.machine.init ops = some m) (hne : m.xs ≠ []) :
+    (WLPtr.clearLoop m.s.next m.s.head m.xs.length).2 = 0 ∧
+    ∀ x, (WLPtr.clearLoop m.s.next m.s.head m.xs.length).1 x = if x ∈ m.xs then 0 else m.s.next x := by
+  have hr : WLPtr.Rep m.s m.xs := WLPtr.rep_reachable m ⟨ops, h⟩
+  exact WLPtr.clearLoop_spec hr.1 hne hr.2.2.1
+
+/-- **a timed-out waiter does not corrupt the queue for the others, wherever it stood**: after the removal code
+ran for a queued timed node `n`, the remaining waiters are exactly the old ones without `n` in their old relative
+order, each of them is reached by following `p_next` from `p_head` (which ends at NULL right after the last of
+them), and `p_tail` is the last of them (NULL if none is left) -/
+theorem wl_remove_keeps_others (ops : List WLPtr.Op) (m : WLPtr.M)
+    (h : WLPtr.machine.run WLPtr.machine.init ops = some m) (n : Nat) (hn : n ∈ m.xs) (ht : m.s.timed n = true) :
+    let s' := WLPtr.removeTimed m.s n
+    let ys := m.xs.filter (· != n)
+    WLPtr.step m (.removeTimed n) = some { s := s', xs := ys } ∧
+    ys.Sublist m.xs ∧ (∀ x ∈ m.xs, x ≠ n → x ∈ ys) ∧ n ∉ ys ∧
+    walk s'.next s'.head ys.length = ys ∧ Seg s'.next s'.head ys 0 ∧ s'.tail = ys.getLast?.getD 0 ∧
+    WLPtr.PrevOk s' ys := by
+  have hr : WLPtr.Rep m.s m.xs := WLPtr.rep_reachable m ⟨ops, h⟩
+  have he : m.xs.erase n = m.xs.filter (· != n) := List.Nodup.erase_eq_filter hr.2.2.1 n
+  have hr' := WLPtr.rep_removeTimed hr hn ht
+  rw [he] at hr'
+  have hw := (WLPtr.wlRep_iff _ _).mpr hr'
+  refine ⟨by simp [WLPtr.step, WLPtr.specStep, hn, ht, he, WLPtr.ptrStep], List.filter_sublist, ?_, by simp, seg_walk hr'.1, hw.1, hw.2.1, hw.2.2.2⟩
+  intro x hx hxn
+  simp [hx, hxn]
+
+open WLPtr in
+/-- non-vacuity: seven nodes, timed (2 4 5 7) and untimed (1 3 6) mixed.  Removal of a middle node between an
+untimed predecessor and a timed successor (4), of the head whose `p_prev` is stale because its predecessor was
+popped by a signal (2), of a middle node between two untimed nodes (5), of the tail (7), then a broadcast; after
+each prefix the structure represents the expected list -/
+example :
+    let ops : List WLPtr.Op := [.enqUntimed 1, .enqTimed 2, .enqUntimed 3, .enqTimed 4, .enqTimed 5, .removeTimed 4, .popHead,
+      .removeTimed 2, .enqUntimed 6, .removeTimed 5, .enqTimed 7, .removeTimed 7, .enqTimed 8, .broadcast]
+    (List.range 15).map (fun k => (WLPtr.machine.run WLPtr.machine.init (ops.take k)).map (fun m => (m.xs, decide (Rep m.s m.xs)))) =
+      [some ([], true), some ([1], true), some ([1, 2], true), some ([1, 2, 3], true), some ([1, 2, 3, 4], true),
+       some ([1, 2, 3, 4, 5], true), some ([1, 2, 3, 5], true), some ([2, 3, 5], true), some ([3, 5], true),
+       some ([3, 5, 6], true), some ([3, 6], true), some ([3, 6, 7], true), some ([3, 6], true), some ([3, 6, 8], true),
+       some ([], true)] := by decide
+
+open WLPtr in
+/-- the stale link is really there: after `enqTimed 1, enqTimed 2, popHead` node 2 is the head and its `p_prev` still
+names the popped node 1 — the code's head test `p_head == &thread` (not `p_prev == NULL`) is what makes its removal
+correct -/
+example :
+    (WLPtr.machine.run WLPtr.machine.init [.enqTimed 1, .enqTimed 2, .popHead]).map (fun m => (m.xs, m.s.head, m.s.prev 2)) = some ([2], 2, 1) ∧
+    (WLPtr.machine.run WLPtr.machine.init [.enqTimed 1, .enqTimed 2, .popHead, .removeTimed 2]).map (fun m => (m.xs, m.s.head, m.s.tail)) = some ([], 0, 0) := by
+  decide
+
+open WLPtr in
+/-- **the invariant is doing work**: take the list 1,2,3 (all timed) and remove 2 *without* the statement
+`thread.p_next->p_prev = thread.p_prev` (state `bad`): the list is still 1,3 with correct head, tail and links, only
+`PrevOk` fails — node 3 is not the head and its `p_prev` (2) is stale.  Running the removal code for node 3 on that
+state corrupts the list: `p_tail` becomes the already removed node 2, node 3 stays linked behind node 1 (following
+`p_next` from the head still visits it), so the structure represents no list any more; on the state the real code
+produces, the same removal yields the list [1] -/
+example :
+    let good := (WLPtr.machine.run WLPtr.machine.init [.enqTimed 1, .enqTimed 2, .enqTimed 3]).map (·.s) |>.getD WLPtr.init
+    let bad : WLPtr.St := { removeTimed good 2 with prev := good.prev }
+    (Seg bad.next bad.head [1, 3] 0 ∧ bad.tail = 3 ∧ ¬ PrevOk bad [1, 3] ∧ bad.prev 3 = 2) ∧
+    (let s' := removeTimed bad 3
+     s'.tail = 2 ∧ walk s'.next s'.head 2 = [1, 3] ∧ ¬ Rep s' [1] ∧ ¬ Rep s' [1, 3]) ∧
+    Rep (removeTimed (removeTimed good 2) 3) [1] := by
+  decide
 
 end ArgoVerif.Props.C19
